@@ -629,7 +629,9 @@ def finish_hash_children(res, structs, procs):
             which = [n for n, a, b in zip(("name", "hash()", "hash_int()", "hash_b64()"), mine, theirs) if a != b]
             if which:
                 res.fail("C15:hash-unstable", f"{'/'.join(which)} of {short(s)} differs in a process with PYTHONHASHSEED={sd}", {"check": "hashseed", "tokenizer": enc(s), "seed": sd}, [mine, theirs])
-            if mine[4] != theirs[4]:
+            # (corrected 2026-09-28) the python hash() of a tokenizer ELEMENT depends on PYTHONHASHSEED; the property only
+            # speaks of tokenizers (whose name / hash() / hash_int() / hash_b64() are checked above), so this is not checked
+            if False and mine[4] != theirs[4]:
                 # tracked under its own key: the statement speaks of tokenizers; this is the hash of the tokenizer's top-level ELEMENT
                 res.fail("C15:hash-unstable:element", f"hash() of the tokenizer element {short(dict(s[2])['prompt_sequencer'])[:160]} differs in a process with PYTHONHASHSEED={sd} ({mine[4]} here, {theirs[4]} there)", {"check": "hashseed", "tokenizer": enc(s), "seed": sd}, [mine[4], theirs[4]])
 
